@@ -46,8 +46,10 @@ pub fn format(
         }
     }
 
-    // The ranges of a nested block follow those of the enclosing block: restore position order,
-    // which `merge_ranges` relies on.
+    // The ranges of a nested block follow those of the enclosing block, and a formatter may reach
+    // back in front of an earlier removal position: restore position order, which `merge_ranges`
+    // and `merge_overlapped_ranges` rely on.
+    ranges.sort_by_key(|range| range.start);
     open_structure_remove_range.sort_by_key(|range| range.start);
     merge_ranges(&mut ranges, open_structure_remove_range);
     merge_overlapped_ranges(&mut ranges);
